@@ -288,3 +288,48 @@ def noise_rules(S):
     except MissingParameter:
         ok = True
     S.claim('missing_noise_with_gaussian_prior_raises', ok)
+
+
+@obligation('C12.history.reused_parameter_list', functions=FUNCS, max_paths=200, timeout_s=120, nvalid=2,
+            stubs=['raw_fields := counting stub'],
+            bounds='the same list object passed to consecutive evaluations and edited in place between them '
+                   '(r ~ Uniform(-0.1,1), x ~ Gaussian): every evaluation equals the evaluation of a fresh list; '
+                   'evaluating other parameter values in between changes nothing')
+def reused_parameter_list(S):
+    setup(S)
+    log = []
+    theory = make_stub_theory(S, log=log, tagger=_tag)
+    pr = Uniform(-0.1, 1.0, guess=0.5, name='r')
+    px = Gaussian(0.0, 1.0, name='x')
+    model = AlphaModel(Sphere(n=1.59, r=pr, center=(px, 0.4, 3.0)), alpha=1.0, theory=theory)
+    r1, r2, x1 = S.real('r1'), S.real('r2'), S.real('x1')
+    data, dvals, noise = _data(S, (1, 2))
+    plist = [r1, x1]
+    first = model.lnposterior(plist, data)
+    plist[0] = r2                      # edited in place
+    n0 = len(log)
+    second = model.lnposterior(plist, data)
+    calls_second = len(log) - n0
+    from holopy.scattering.errors import InvalidScatterer
+    try:
+        sc = model.scatterer_from_parameters(plist)
+    except InvalidScatterer:
+        sc = None
+    fresh_second = model.lnposterior([r2, x1], data)
+    again_first = model.lnposterior([r1, x1], data)
+    if sc is not None:
+        S.claim_eq('scatterer_follows_edit', sc.r, r2)
+    else:
+        S.claim('invalid_scatterer_only_for_negative_radius', r2 < 0)
+    for tag, got, ref in (('second', second, fresh_second), ('first_again', again_first, first)):
+        if _is_minf(got) or _is_minf(ref):
+            S.claim(tag + '.both_minus_inf', _is_minf(got) and _is_minf(ref))
+        else:
+            S.claim_eq(tag + '.same_value', got, ref)
+    inside2 = ((r2 >= 0) & (r2 <= 1.0)) if S.sym else (0 <= r2 <= 1.0)
+    S.claim_iff('second_minus_inf_iff_forbidden', _is_minf(second),
+                ~inside2 if S.sym and not isinstance(inside2, bool) else (not inside2))
+    if _is_minf(second):
+        S.claim('no_forward_call_when_forbidden', calls_second == 0)
+    else:
+        S.observe('second', second)
